@@ -57,6 +57,7 @@ _tmpl_rshift = amethod("template.__rshift__", {"self": None, "other": ANYT}, doc
                        result=ANYT, ensures=lambda c, result, **k: {"never-None": c.Not(Z.is_none(result.t))}, emits_after=_bound_after, has_events=True, raises={"BaseException": lambda c, exc, **k: True})
 Tmpl = TAbs("template", fields={}, methods={"__rshift__": _tmpl_rshift}, events=False)
 Tmpl.not_isa = ["cobald.interfaces._pool:Pool"]
+Tmpl.undeclared_may_be_missing = True       # "some template" is a Partial or a PartialBind: they share `>>` and nothing else
 _tmpl_rshift.params["self"] = Tmpl
 PoolObj = TAbs("pool-instance", fields={}, events=False)
 PoolObj.isa = ["cobald.interfaces._pool:Pool"]
